@@ -17,7 +17,7 @@ import vlib
 
 SRC = vlib.BASE_SRC + ["flow/state_machine.cpp"]
 SPEC = "Hfsm"
-CLAUSES = ["ExitActionEnterOrder", "OncePerTransition", "StartStopShape", "EnterExitBalanced", "EnteredIffCurrent",
+CLAUSES = ["DefinedActionsRun", "ExitActionEnterOrder", "OncePerTransition", "StartStopShape", "EnterExitBalanced", "EnteredIffCurrent",
            "HandlerBeforeRoutes", "FirstMatchingRoute", "SubMachineFirstUntilTerminated", "ReentrantCallsRejected", "StateSane"]
 # wrong semantics -> (family it is shown on, clause it must violate)
 VARIANTS = [("stop_keeps_sub", "nestq", "EnterExitBalanced"),          # as found: stop() left the nested machine running
@@ -27,7 +27,9 @@ VARIANTS = [("stop_keeps_sub", "nestq", "EnterExitBalanced"),          # as foun
             ("handler_ignored", "flat2q", "HandlerBeforeRoutes"),
             ("enter_first", "flat2q", "ExitActionEnterOrder"),
             ("exit_twice", "flat2q", "OncePerTransition"),
-            ("no_reent_guard", "reent_enter", "ReentrantCallsRejected")]
+            ("no_reent_guard", "reent_enter", "ReentrantCallsRejected"),
+            ("guard_released_early", "reent_enter", "ReentrantCallsRejected"),  # nested machine activated outside the guard
+            ("route_bound_early", "nestq", "DefinedActionsRun")]                # route to 0 bypasses the user's terminal state
 
 
 def par_mc(ctx, jobs):
@@ -104,6 +106,7 @@ def gen_program(rnd):
                                                 "sub": 0, "rs": [], "hd": []})
         ms.append({"init": rnd.choice(ids), "cc": int(rnd.random() < 0.8), "ss": ss})
     # nesting: machine m > 1 hangs under a state of an earlier machine; prefer chains (depth >= 2)
+    parent = {}
     for m in range(2, nm + 1):
         parents = [m - 1] if rnd.random() < 0.7 else list(range(1, m))
         rnd.shuffle(parents)
@@ -111,6 +114,7 @@ def gen_program(rnd):
             free = [s for s in ms[pm - 1]["ss"] if s["id"] != 0 and s["sub"] == 0]
             if free:
                 rnd.choice(free)["sub"] = m
+                parent[m] = pm
                 break
     for m in range(1, nm + 1):
         M = ms[m - 1]
@@ -138,8 +142,8 @@ def gen_program(rnd):
             for e in evs:
                 hs.append([(-1 if rnd.random() < 0.55 else rnd.choice(targets)) for _ in range(rnd.randint(1, 3))])
                 s["hd"].append({"ev": e, "h": len(hs)})
-    if rnd.random() < 0.35:
-        sites = []
+    sites = []
+    if rnd.random() < 0.45:
         for m in range(1, nm + 1):
             M = ms[m - 1]
             if M["cc"]:
@@ -160,8 +164,64 @@ def gen_program(rnd):
             if sites:
                 m, k, i = rnd.choice(sites)
                 op = rnd.randint(1, 4)
-                re_.append({"m": m, "k": k, "id": i, "c": [op, rnd.randint(1, ne) if op == 4 else 0]})
+                t = m
+                if m in parent and rnd.random() < 0.5:
+                    # attempt on the parent / an outer ancestor from a callback of the nested machine; it is made only
+                    # while that ancestor is activating the nested machine (see Hfsm!Fire), which needs its notification
+                    t = parent[m]
+                    while t in parent and rnd.random() < 0.3:
+                        t = parent[t]
+                    ms[t - 1]["cc"] = 1
+                    op = rnd.choice([2, 2, 3, 4])
+                    if rnd.random() < 0.5:      # the nested machine's initial enter action is the first thing an activation runs
+                        init = [x for x in ms[m - 1]["ss"] if x["id"] == ms[m - 1]["init"]][0]
+                        init["en"] = 1
+                        k, i = "E", init["id"]
+                re_.append({"m": m, "k": k, "id": i, "c": [op, rnd.randint(1, ne) if op == 4 else 0], "t": t})
     return {"ne": ne, "ms": ms, "gs": gs, "hs": hs, "re": re_}
+
+
+def definition_order(rnd, p):
+    """A random LEGAL order of the definition calls of program p (Hfsm!DefsLegal): the reference semantics does not depend
+    on it, the driver replays it.  Routes to the terminal state 0 may precede the user's own newState(0, ...)."""
+    deps = {}
+    for m, M in enumerate(p["ms"], 1):
+        sidx = {S["id"]: si for si, S in enumerate(M["ss"], 1)}
+        for si, S in enumerate(M["ss"], 1):
+            s_op = ("S", m, si, 0)
+            deps[s_op] = set()
+            prev = None
+            for j, R in enumerate(S["rs"], 1):
+                d = {s_op}
+                if prev:
+                    d.add(prev)
+                if R["to"] != 0:
+                    d.add(("S", m, sidx[R["to"]], 0))
+                prev = ("R", m, si, j)
+                deps[prev] = d
+            for j, _ in enumerate(S["hd"], 1):
+                deps[("H", m, si, j)] = {s_op}
+            if S["sub"]:
+                deps[("U", m, si, 0)] = {s_op}
+    style = rnd.random()
+    order, done, todo = [], set(), sorted(deps)
+    while todo:
+        ready = [o for o in todo if deps[o] <= done]
+        if style < 0.25:                      # the usual style: all states first
+            st = [o for o in ready if o[0] == "S"]
+            ready = st or ready
+        elif style < 0.5:                     # as late as possible: a state is declared when something needs it
+            late = [o for o in ready if o[0] != "S"]
+            ready = late or ready
+        o = rnd.choice(ready)
+        order.append(o)
+        done.add(o)
+        todo.remove(o)
+    for m, M in enumerate(p["ms"], 1):
+        first = [o for o in order if o[0] == "S" and o[1] == m]
+        if not first or M["ss"][first[0][2] - 1]["id"] != M["init"] or rnd.random() < 0.3:
+            order.insert(rnd.randint(0, len(order)), ("I", m, 0, 0))
+    return [list(o) for o in order]
 
 
 def gen_calls(rnd, ne, n):
@@ -189,12 +249,15 @@ def gen_calls(rnd, ne, n):
 # ------------------------------------------------------------------------------------------------------------------
 def validate(ctx, exe, execs, tag, what, replays=False):
     inp = ctx.tmp(tag + ".jsonl")
+    drnd = random.Random(ctx.seed * 7919 + len(execs))
+    execs = [e if "defs" in e["p"] else {"p": dict(e["p"], defs=definition_order(drnd, e["p"])), "calls": e["calls"]} for e in execs]
     with open(inp, "w") as f:
         for e in execs:
             f.write(json.dumps(e, separators=(",", ":")) + "\n")
     tr = ctx.tmp(tag + ".ndjson")
+    # bigger thread stacks: the nested quantifiers of Hfsm!DefsLegal overflow TLC's default worker stack on long definitions
     ok, n = vlib.record_and_validate(ctx, exe, ["run", inp, tr], tr, SPEC, "Trace_Hfsm.tla", "Trace_Hfsm.cfg",
-                                     "%s: %d executions" % (what, len(execs)))
+                                     "%s: %d executions" % (what, len(execs)), tlc_env={"JAVA_TOOL_OPTIONS": "-Xss64m"})
     if ok and replays:
         ctx.traces_ok -= n
         ctx.replays_ok += n
@@ -214,6 +277,17 @@ def coverage_guard(ctx, traces):
     for tr in traces:
         with open(tr) as f:
             for line in f:
+                if line.startswith('{"e":"Prog"'):
+                    pr = json.loads(line)["p"]
+                    seen_term = set()
+                    for d in pr.get("defs", []):
+                        if d[0] == "S" and pr["ms"][d[1] - 1]["ss"][d[2] - 1]["id"] == 0:
+                            seen_term.add(d[1])
+                        if (d[0] == "R" and pr["ms"][d[1] - 1]["ss"][d[2] - 1]["rs"][d[3] - 1]["to"] == 0 and d[1] not in seen_term
+                                and any(x["id"] == 0 for x in pr["ms"][d[1] - 1]["ss"])):
+                            add("route_to_terminal_registered_before_user_terminal_state")
+                            break
+                    continue
                 if not line.startswith('{"e":"Call"'):
                     continue
                 e = json.loads(line)
@@ -224,12 +298,17 @@ def coverage_guard(ctx, traces):
                     add("cb_" + t[0])
                     if t[0] == "C" and t[4] == 0 and t[1] > 1:
                         add("nested_machine_terminated")
+                    if t[0] == "E" and t[2] == 0:
+                        add("user_terminal_state_entered")
                     if t[0] == "R":
                         add("reentrant_%s_rejected" % names[t[2]].lower())
+                        if t[6] != t[1]:
+                            add("reentrant_call_on_ancestor_rejected")
                 if sum(q[0] for q in e["q"]) >= 3:
                     add("three_levels_active")
     need = list(names.values()) + ["cb_" + k for k in "GHXAECR"] + ["nested_machine_terminated", "three_levels_active",
-            "Stop_with_active_nested_machine"] + ["reentrant_%s_rejected" % n.lower() for n in names.values()]
+            "Stop_with_active_nested_machine", "reentrant_call_on_ancestor_rejected", "user_terminal_state_entered",
+            "route_to_terminal_registered_before_user_terminal_state"] + ["reentrant_%s_rejected" % n.lower() for n in names.values()]
     missing = [k for k in need if cnt.get(k, 0) == 0]
     if missing:
         raise vlib.Infra("vacuity guard: never exercised in the validated traces: " + ", ".join(missing))
